@@ -222,7 +222,8 @@ Fixpoint scan_pi_data (sur : bool) (l : str) : sres str :=
   | [] => SStop (Fatal EC_UnterminatedPI)
   | c :: r =>
       if c =? 0 then SStop (Fatal EC_UnterminatedPI) else
-      if (c =? c_quest) && (peek r =? c_gt) then SOk [] (tl r) else
+      if (c =? c_quest) && (peek r =? c_gt)
+      then (if sur then SStop (Fatal EC_Expected2ndSurrogateChar) else SOk [] (tl r)) else
       match sur_check1 sur c with
       | inr e => SStop (Fatal e)
       | inl sur' => cons_res c (scan_pi_data sur' r)
@@ -332,10 +333,11 @@ Fixpoint scan_attval (fuel : nat) (q : N) (sur : bool) (l : str) : sres str :=
       | [] => SStop (Fatal EC_XMLException_Fatal)               (* UnexpectedEOFException *)
       | c :: r =>
           if c =? 0 then SStop (Fatal EC_XMLException_Fatal) else
-          if c =? q then SOk [] r else
+          if c =? q then (if sur then SStop (Fatal EC_Expected2ndSurrogateChar) else SOk [] r) else
           if c =? c_amp then
+            if sur then SStop (Fatal EC_Expected2ndSurrogateChar) else      (* proposed fix C02-surrogate-before-reference *)
             match scan_entref r with
-            | SOk (c1, c2) r' => cons_res c1 (consopt c2 (scan_attval f q sur r'))
+            | SOk (c1, c2) r' => cons_res c1 (consopt c2 (scan_attval f q false r'))
             | SStop s => SStop s
             end
           else
@@ -380,8 +382,9 @@ Fixpoint scan_chardata (fuel : nat) (st : cdst) (sur : bool) (l : str) : sres st
       | c :: r =>
           if c =? c_lt then (if sur then SStop (Fatal EC_Expected2ndSurrogateChar) else SOk [] l) else
           if c =? c_amp then
+            if sur then SStop (Fatal EC_Expected2ndSurrogateChar) else      (* proposed fix C02-surrogate-before-reference *)
             match scan_entref r with
-            | SOk (c1, c2) r' => cons_res c1 (consopt c2 (scan_chardata f CW sur r'))
+            | SOk (c1, c2) r' => cons_res c1 (consopt c2 (scan_chardata f CW false r'))
             | SStop s => SStop s
             end
           else
@@ -705,7 +708,9 @@ Fixpoint misc (fuel : nat) (ns : bool) (l : str) : list event * sres unit :=
   | O => ([], SStop OutOfFuel)
   | S f =>
       let c := peek l in
-      if c =? 0 then ([], SOk tt l) else
+      (* end of input; a NUL character in the input is not the end of input but an illegal character (F41 repaired) *)
+      if is_nil l then ([], SOk tt l) else
+      if c =? 0 then ([], SStop (Fatal EC_InvalidCharacter)) else
       if c =? c_lt then
         match check_xmldecl l with
         | Some (lowercase, _) =>
